@@ -10,6 +10,7 @@ import (
 	"cosmossdk.io/math"
 	abci "github.com/cometbft/cometbft/abci/types"
 	sdk "github.com/cosmos/cosmos-sdk/types"
+	"github.com/ethereum/go-ethereum/common"
 	bitcointypes "github.com/goatnetwork/goat/x/bitcoin/types"
 	goatmodtypes "github.com/goatnetwork/goat/x/goat/types"
 	relayertypes "github.com/goatnetwork/goat/x/relayer/types"
@@ -142,10 +143,10 @@ func (d *robust) malformedMsgs(bech string) []struct {
 }
 
 // malformedPayloads returns broken execution-block messages (signed later by the height's proposer).
-func (d *robust) malformedPayloads(c *sim.Chain, bech string) []struct {
+func (d *robust) malformedPayloads(c *sim.Chain, bech string) (out []struct {
 	Kind string
 	Msg  sdk.Msg
-} {
+}) {
 	r := d.r
 	rb := func(n int) []byte { b := make([]byte, n); r.Read(b); return b }
 	type M = struct {
@@ -159,7 +160,25 @@ func (d *robust) malformedPayloads(c *sim.Chain, bech string) []struct {
 		}
 		return pl
 	}
-	out := []M{{"block/nilPayload", &goatmodtypes.MsgNewEthBlock{Proposer: bech}}}
+	// Every mutated payload gets its block hash recomputed: a payload the ENGINE calls INVALID stops the block by design (C09);
+	// what is explored here is what the application itself does with malformed content.
+	rehash := func(p *goatmodtypes.ExecutionPayload) {
+		defer func() { recover() }()
+		cp := *p
+		if cp.BaseFeePerGas.IsNil() {
+			cp.BaseFeePerGas = math.ZeroInt()
+		}
+		hh := sim.PayloadHash(goatmodtypes.PayloadToExecutableData(&cp), common.BytesToHash(p.BeaconRoot), p.Requests)
+		p.BlockHash = hh[:]
+	}
+	defer func() {
+		for _, m := range out {
+			if eb, ok := m.Msg.(*goatmodtypes.MsgNewEthBlock); ok && eb.Payload != nil && m.Kind != "block/fieldSizes" {
+				rehash(eb.Payload)
+			}
+		}
+	}()
+	out = []M{{"block/nilPayload", &goatmodtypes.MsgNewEthBlock{Proposer: bech}}}
 	p := honest()
 	p.ExtraData = nil
 	out = append(out, M{"block/noExtra", &goatmodtypes.MsgNewEthBlock{Proposer: bech, Payload: p}})
